@@ -368,8 +368,21 @@ def rule_shebang(ck: Check, repo: Repo, rid: str = "R3") -> None:
         want = [created, "before", "after", "bool(header)"] if name == "find_and_replace_header" else [created, "shebang", "text", "False"]
         if pa != want:
             r.violation(q, "place_header operands", f"{pa}; expected {['<the created header>'] + want[1:]}", repo.loc(ph[0]))
-        if "if style.SHEBANGS:" not in ast.unparse(fn):
+        # the style's declaration table is consulted: a loop over it, or a generator over it handed to next()
+        table_loops = [n for n in ast.walk(fn) if isinstance(n, ast.For) and re.fullmatch(r"\w+\.SHEBANGS", ast.unparse(n.iter))]
+        table_gens = [g for n in ast.walk(fn) if isinstance(n, ast.GeneratorExp) for g in n.generators
+                      if re.fullmatch(r"\w+\.SHEBANGS", ast.unparse(g.iter))]
+        r.instance(f"shebang-table:{name}", {"loops": len(table_loops), "generators": len(table_gens)}, q)
+        if not table_loops and not table_gens:
             r.violation(q, "shebang table not consulted", "", repo.loc(fn))
+        for g in table_gens:
+            # first entry the text starts with (`next((p for p in style.SHEBANGS if text.startswith(p)), None)`): same choice as
+            # the loop that breaks at the first match; any other filter is a shape this rule has no table for
+            v = ast.unparse(g.target)
+            if [ast.unparse(t) for t in g.ifs] != [f"{want[2] if name == 'add_new_header' else 'after'}.startswith({v})"] \
+                    and [ast.unparse(t) for t in g.ifs] != [f"text.startswith({v})"]:
+                raise AnalysisError(f"{name}: the declaration table is searched by a generator whose filter"
+                                    f" {[ast.unparse(t)[:50] for t in g.ifs]} is not the plain `text.startswith(entry)` test (shape not enumerated)")
         # the operands handed to place_header are bound ONLY by the finder, by constants and by _extract_shebang: another
         # mechanism that moves text above (or out of) the header is a new feature this rule has no table for
         watched = set(want[1:3])
@@ -565,10 +578,17 @@ def rule_partition(ck: Check, repo: Repo, rid: str = "R4") -> None:
     q = f"{HD}._find_first_spdx_comment"
     fn = repo.func(q)
     ck.analysed_fn(q)
+    from ..rules import deep_text as _dt4
     rets = [n for n in ast.walk(fn) if isinstance(n, ast.Return) and isinstance(n.value, ast.Call)]
-    txt = [ast.unparse(a) for a in rets[0].value.args] if rets else []
+    txt = [_dt4(fn, a) for a in rets[0].value.args] if rets else []      # cut points named by locals are read through
     r.instance(q, {"sections": txt})
-    if txt != ["text[:index]", "comment + '\\n'", "text[index + len(comment) + 1:]"]:
+    _p0 = fn.args.args[0].arg if fn.args.args else "text"
+    _loops = [n for n in ast.walk(fn) if isinstance(n, ast.For) and isinstance(n.target, ast.Name)]
+    _idx = _loops[0].target.id if _loops else "index"
+    _cv = [ast.unparse(n.targets[0]) for n in ast.walk(fn) if isinstance(n, ast.Assign) and isinstance(n.value, ast.Call)
+           and isinstance(n.value.func, ast.Attribute) and n.value.func.attr == "comment_at_first_character"]
+    _cv = _cv[0] if _cv else "comment"
+    if txt != [_dt4(fn, e) for e in (f"{_p0}[:{_idx}]", f"{_cv} + '\\n'", f"{_p0}[{_idx} + len({_cv}) + 1:]")]:
         r.violation(q, "sections are not a partition of the text", f"{txt}", repo.loc(fn))
     src = ast.unparse(fn)
     from ..rules import has, single_assign_value
@@ -588,8 +608,8 @@ def rule_partition(ck: Check, repo: Repo, rid: str = "R4") -> None:
         r.violation(q, f"the comment parser does not see the whole rest of the text ({args})",
                     f"comment_at_first_character must receive {p0}[{idx}:] - a bounded window cuts long headers, the block is no longer"
                     f" recognised as the header the tool wrote and the next run stacks a second one", repo.loc(calls[0] if calls else fn))
-    if not has(src, "for index in indices:", ["index", "indices"]) or \
-            not has(src, "indices = _indices_of_newlines(text)", ["indices", "text"]):
+    # the candidates are the line starts: the loop walks (through whatever local) _indices_of_newlines(<the text>)
+    if not (loops and _dt4(fn, loops[0].iter) == f"_indices_of_newlines({p0})"):
         r.violation(q, "comment blocks are not searched at line starts", "every line start must be a candidate", repo.loc(fn))
     # len(comment) is used as an offset into the text: every comment_at_first_character must return a PREFIX of its
     # argument (unmodified lines joined by the newline that separated them)
@@ -662,8 +682,32 @@ def rule_bom(ck: Check, repo: Repo) -> None:
              f"{HD}._find_first_spdx_comment", f"{HD}.create_header", f"{HD}._create_new_header", f"{HD}._extract_shebang",
              "reuse.comment.CommentStyle.comment_at_first_character", "reuse.extract.detect_line_endings"]
     consts: list[str] = []
+    # a module-level name for the mark (`_BOM = "\ufeff"`) is read as the literal it stands for
+    import copy as _copy
+    _mod = repo.module(AN)
+    _named = {t.id: st.value for st in _mod.tree.body if isinstance(st, (ast.Assign, ast.AnnAssign)) and st.value is not None
+              and isinstance(st.value, ast.Constant) and isinstance(st.value.value, str)
+              for t in (st.targets if isinstance(st, ast.Assign) else [st.target]) if isinstance(t, ast.Name)}
+
+    class _Lit(ast.NodeTransformer):
+        def visit_Name(self, n):
+            if isinstance(n.ctx, ast.Load) and n.id in _named:
+                return ast.copy_location(ast.Constant(value=_named[n.id].value), n)
+            return n
+
+    def _with_literals(f):
+        if not any(isinstance(n, ast.Name) and n.id in _named for n in ast.walk(f)):
+            return f
+        g = _Lit().visit(_copy.deepcopy(f))
+        # `text[len('\ufeff'):]` is `text[1:]`
+        for n in ast.walk(g):
+            if isinstance(n, ast.Slice) and isinstance(n.lower, ast.Call) and ast.unparse(n.lower.func) == "len" and len(n.lower.args) == 1 \
+                    and isinstance(n.lower.args[0], ast.Constant) and isinstance(n.lower.args[0].value, str):
+                n.lower = ast.Constant(value=len(n.lower.args[0].value))
+        return ast.fix_missing_locations(g)
+
     for q in funcs:
-        for n in ast.walk(repo.func(q)):
+        for n in ast.walk(_with_literals(repo.func(q)) if q.startswith(AN + ".") else repo.func(q)):
             if isinstance(n, ast.Constant) and isinstance(n.value, str):
                 consts.append(n.value)
             if isinstance(n, ast.Attribute) and n.attr.startswith("BOM"):
@@ -680,7 +724,7 @@ def rule_bom(ck: Check, repo: Repo) -> None:
                     repo.loc(repo.func(f"{AN}.add_header_to_file")))
         return
     # structure of the handling: split off under a startswith test, processed text without it, written back first
-    fn = repo.func(f"{AN}.add_header_to_file")
+    fn = _with_literals(repo.func(f"{AN}.add_header_to_file"))
     src = re.sub(r"\s+", " ", ast.unparse(fn))
     # enumerated shapes: (a) `bom = ''` + `if text.startswith(BOM): bom = BOM; text = text[1:] | text.removeprefix(BOM)`
     #                    (b) `bom = BOM if text.startswith(BOM) else ''` + `text = text.removeprefix(bom)` / `text[len(bom):]`
@@ -720,7 +764,7 @@ def rule_bom(ck: Check, repo: Repo) -> None:
                                  "before_processing": before_processing})
     if not (split and init and back and before_processing):
         r.violation(f"{AN}.add_header_to_file", "BOM is not split off before processing and written back first",
-                    f"split={bool(split)} init={init} write={wr} before_processing={before_processing}", repo.loc(fn))
+                    f"split={bool(split)} init={init} write={wr} before_processing={before_processing}", repo.loc(repo.func(f"{AN}.add_header_to_file")))
 
 
 def run(ck: Check, repo: Repo) -> None:
